@@ -368,7 +368,12 @@ def main():
                 for shift in range(1, 4):
                     ext = run_all(prop, cfg, tier, seed, workroot, scale=2, seed_shift=shift)
                     for r in ext:
-                        _, u = classify(prop, r["oracle"], known)
+                        rel = []
+                        for m in r["oracle"]:
+                            tag = re.match(r"^(?:\([^)]*\) )?(?:C16 history engine[^:]*: )?(C\d\d)\b", m)
+                            if not (tag and "tags" in cfg and tag.group(1) not in allowed):
+                                rel.append(m)
+                        _, u = classify(prop, rel, known)
                         if u:
                             found = (r, u[0])
                             break
